@@ -87,6 +87,7 @@ def run_impl_case(case):
     class VQueue:
         def __init__(self):
             self.arr = list(msgs)
+            self.got = []          # clock value at which each message was handed out
 
         def get(self, block=True, timeout=None):
             if not self.arr:
@@ -98,6 +99,7 @@ def run_impl_case(case):
             if timeout is None or t <= clock['now'] + timeout:
                 clock['now'] = max(clock['now'], t)
                 self.arr.pop(0)
+                self.got.append(clock['now'])
                 return m
             clock['now'] += timeout
             raise _q.Empty
@@ -107,11 +109,17 @@ def run_impl_case(case):
     out = []
     finished = False
     try:
-        eb = _streamer.EagerBatcher(VQueue(), batch_size=case['bs'], batch_wait_time=case['w'],
+        vq = VQueue()
+        eb = _streamer.EagerBatcher(vq, batch_size=case['bs'], batch_wait_time=case['w'],
                                     endmarker=end)
         try:
+            taken = 0
             for b in eb:
-                out.append([[NONE_ITEM if x is None else (x if isinstance(x, int) and abs(x) < 10**6 else -888) for x in b], clock['now']])
+                # third component: the clock when the batch's first item left the queue (the model's
+                # history field first_t, which C19_eb_waits_no_longer_than_told is stated with)
+                first_t = vq.got[taken] if taken < len(vq.got) else -1
+                taken += len(b)
+                out.append([[NONE_ITEM if x is None else (x if isinstance(x, int) and abs(x) < 10**6 else -888) for x in b], clock['now'], first_t])
             finished = True
         except _Blocked:
             finished = False
@@ -135,14 +143,14 @@ def oracle(case, obs):
             endidx = i
             break
         items.append(NONE_ITEM if m is None else m)
-    got = [x for b, _ in obs['batches'] for x in b]
+    got = [x for b, *_ in obs['batches'] for x in b]
     if got != items:
         return f'batches do not partition the input: got {got}, input before end {items}'
     if obs['finished'] != (endidx is not None):
         return f'finished={obs["finished"]} but end marker present={endidx is not None}'
     p = 0
     prev_emit = 0
-    for b, et in obs['batches']:
+    for b, et, *_ in obs['batches']:
         if not (1 <= len(b) <= bs):
             return f'batch of size {len(b)} with batch_size {bs}'
         t0 = max(prev_emit, arr[p][0])
@@ -198,7 +206,7 @@ def coq_case(r) -> str:
     from harness.core import cbool, clist, cnat, copt, cz
     c, o = r['case'], r['obs']
     arr = clist(c['arr'], lambda a: f"({cz(a[0])}, {copt(None if a[1] == 'END' else (NONE_ITEM if a[1] is None else a[1]), cz)})")
-    obs = clist(o['batches'], lambda b: f'({clist(b[0], cz)}, {cz(b[1])})')
+    obs = clist(o['batches'], lambda b: f'({clist(b[0], cz)}, {cz(b[1])}, {cz(b[2] if len(b) > 2 else -1)})')
     return f"({cnat(c['bs'])}, {cz(c['w'])}, {arr}, ({cbool(o['finished'])}, {obs}))"
 
 
@@ -292,7 +300,7 @@ def check(tier: str, seed: int, replay: str | None = None) -> int:
         'correspondence_mismatches': len(mism),
         'rule': 'random (batch_size, wait, arrival-time gaps around the wait, end-marker style/position) cases from one '
                 'PRNG seeded by VERIF_SEED, corpus first; each is run on the real EagerBatcher over a virtual-time queue and '
-                'on the Coq model (vm_compute), outputs (batches, emit times, finished?) compared; non-trivial = at least two '
+                'on the Coq model (vm_compute), outputs (batches, emit times, clock at which each batch's first item left the queue, finished?) compared; non-trivial = at least two '
                 'batches and at least one short batch; distinct = distinct input',
         'input_distribution': {'batch_size': dist, **reasons},
         'samples': [{'case': r['case'], 'observed': r['obs']} for r in results[:3]],
